@@ -2342,7 +2342,7 @@ def ftn_implied(expr, func, arg):
         func -
         arg -
     """
-    node = declast.ExprParser(expr).expression()
+    node = declast.check_expr(expr)
     visitor = ToImplied(expr, func, arg)
     return visitor.visit(node), visitor.intermediate, visitor.helper
 
